@@ -116,3 +116,36 @@ pub fn model_valid<S: Src>(s: &mut S) {
     pv_check!(s, super::oracle::case_is_lowercase(c) == Some(c.is_lowercase()), "PV: case model == char::is_lowercase on the witness");
     pv_cover!(s, got[1] != '\0', "COVER: multi-character lowercase mapping");
 }
+
+/// Concrete witnesses for the one context-sensitive lowercase rule of Unicode (Final_Sigma): the rule must map U+03A3
+/// to U+03C3 wherever it stands.  Inputs are constants (folded by the solver), real std, no stub.
+pub fn sigma_context<S: Src>(s: &mut S) {
+    const W: [&str; 6] = ["\u{3a3}", "A\u{3a3}", "\u{391}\u{3a3}", "a\u{3a3}", "\u{3a3}A", "A\u{3a3} \u{3a3}"];
+    let mut k = 0;
+    while k < 6 {
+        let input = W[k];
+        pv_note!(s, "case_mapping_rule({:?})", input);
+        match UsernameCaseMapped::new().case_mapping_rule(input) {
+            Ok(out) => {
+                let mut it_out = out.chars();
+                let mut ok = true;
+                for c in input.chars() {
+                    for e in c.to_lowercase() {
+                        if it_out.next() != Some(e) {
+                            ok = false;
+                        }
+                    }
+                }
+                if it_out.next().is_some() {
+                    ok = false;
+                }
+                pv_check!(s, ok, "PV: U+03A3 is mapped to U+03C3 whatever precedes or follows it (no Final_Sigma context rule)");
+            }
+            Err(_) => {
+                pv_check!(s, false, "PV: case mapping never fails");
+            }
+        }
+        k += 1;
+    }
+    pv_cover!(s, true, "COVER: reached");
+}
